@@ -62,7 +62,8 @@ def run_rlp_conformance(timeout=900):
 def scratch_copy():
     d = tempfile.mkdtemp(prefix='vp_kani_')
     for f in ('Cargo.toml', 'Cargo.lock'):
-        shutil.copy(os.path.join(D.REPO, f), d)
+        if os.path.exists(os.path.join(D.REPO, f)):   # Cargo.lock is not tracked by the repository; cargo recreates it offline
+            shutil.copy(os.path.join(D.REPO, f), d)
     shutil.copytree(os.path.join(D.REPO, 'src'), os.path.join(d, 'src'))
     if os.path.isdir(os.path.join(D.REPO, 'tests')):
         shutil.copytree(os.path.join(D.REPO, 'tests'), os.path.join(d, 'tests'))
